@@ -38,6 +38,26 @@ def run_c09(ctx: Ctx, M: AnnotateModel):
         for n in ast.walk(s) if not isinstance(s, (ast.If, ast.For, ast.While, ast.Try, ast.With)) else []:
             if M._is_out_call(n):
                 ctx.ob("C09-INIT", f"{q}/{OUT}:pre-loop-mutation", False, "output list mutated before the loop", node=n, mod=m)
+    # ---- the text that is emitted: the source text whenever one is given and differs (whatever the annotations are)
+    params = [a.arg for a in f.args.args + f.args.kwonlyargs]
+    SRC = next((p_ for p_ in params if "source" in p_), None)
+    if SRC is not None and T in params:
+        okT, n_sw, whyT = True, 0, ""
+        for p in enumerate_paths(pre):
+            switched = any(ev[0] == "stmt" and isinstance(ev[1], ast.Assign) and norm(ev[1].targets[0]) == T and norm(ev[1].value) == SRC for ev in p.events)
+            if p.exit == "raise":
+                continue
+            if switched:
+                n_sw += 1
+                continue
+            # not switched: the path must have found that there is no (different) source text, and nothing else
+            conds = [(norm(ev[1]), ev[2]) for ev in p.events if ev[0] == "cond"]
+            no_src = any((t == SRC and not o) or (t in (f"{SRC} is None",) and o) or (t in (f"{SRC} is not None",) and not o) or
+                         (t in (f"{SRC} != {T}", f"{T} != {SRC}") and not o) or (t in (f"{SRC} == {T}", f"{T} == {SRC}") and o) for t, o in conds)
+            if not no_src:
+                okT, whyT = False, f"a path reaches the loop with `{T}` still the plain text although a different source text may be given (conditions {conds})"
+        ctx.ob("C09-INIT", f"{q}/{T}:source-text-when-given", okT and n_sw >= 1,
+               f"the text written out is `{SRC}` on every path on which it is given and differs from `{T}`" if okT else whyT, node=f, mod=m)
     # ---- per-path facts at each emission
     emit_nodes = {}
     for rec in M.paths:
